@@ -195,6 +195,18 @@ impl Oplog {
                         partials.pop();
                     }
                     outcome.entries = Some(entries.into_boxed_slice());
+
+                    // Whatever follows the entries that were read, i.e. entries of the previous
+                    // header that were not truncated away before a crash, or a torn tail, must not
+                    // stay behind the entries that are written from here on: the next header flips
+                    // the header bit and would make them look current again. As in the Javascript
+                    // implementation, cut them off when opening.
+                    let entries_end = OplogSlot::Entries as u64 + entries_byte_length;
+                    if existing.len() as u64 > entries_end {
+                        let mut infos_to_flush = outcome.infos_to_flush.into_vec();
+                        infos_to_flush.push(StoreInfo::new_truncate(Store::Oplog, entries_end));
+                        outcome.infos_to_flush = infos_to_flush.into_boxed_slice();
+                    }
                 }
                 Ok(Either::Right(outcome))
             }
